@@ -3,7 +3,8 @@
    Only statements + `exact`; models: Smt/Intervals.v (merge, compress, nifr), semantics Smt/IvRe.v
    (matches), spec and proofs: Smt/IntervalsFacts.v, Smt/IvCompressFacts.v, and (proof extension)
    Smt/IvReFacts.v (matcher), Smt/IvCompressLang.v (language of compress), Smt/IvConcatFacts.v +
-   Smt/IvConcatSound.v (concatenation case of the intervals).
+   Smt/IvConcatSound.v (concatenation case of the intervals), and (wave 3) Smt/IvConcatExact.v (exact half for
+   concatenations), Smt/IvTightShape.v + Smt/IvTightSound.v + Smt/IvTightFamily.v (tight guard drops_signed).
 
    FULL STATEMENT (kept visible; refuted as it stands, see the _refuted theorems):
      forall r fuel ivs n, documented_shapeb r = true -> nifr true fuel r = Val (Some ivs) ->
@@ -15,20 +16,38 @@
      * the derivative matcher is the declarative semantics (C15_matchb_spec) — the matcher that the harness
        ties to Z3's InRe is no longer trusted separately.
    PARTIAL:
-     * over-approximation half (every integer value of a matched string lies in the intervals), now for the
-       WHOLE recognised vocabulary — concatenations included: flattening, Range(c,c) rewriting, compression,
+     * over-approximation half (every integer value of a matched string lies in the intervals) for the WHOLE
+       recognised vocabulary — concatenations included: flattening, Range(c,c) rewriting, compression,
        sign prefix -/+/Option(sign), union distribution, zero stripping, the three [1-9][0-9]* cases —
-       for both values of q and any fuel, under the guard  K_inner_sign r = false
-       (C15_intervals_overapprox_concat_partial).  The guard is NEEDED: the unguarded statement
+       for both values of q and any fuel,
+         - under the guard  K_inner_sign r = false  (C15_intervals_overapprox_concat_partial), and now
+         - under the TIGHT guard  drops_signed q fuel r = false  (C15_intervals_overapprox_tight_partial; wave 3):
+           the guard follows the recursion of nifr (flattening of union alternatives included) and fires only when
+           the zero-stripping loop drops an element that carries a sign literal while all elements stripped before
+           it are nullable.  Inner signs are allowed (e.g. Concat(Re 0, Concat(Re -, Range 1 9)) and
+           Concat(Re 0, Union(Concat(Re -, Re 0), Re 0), Re 5) are now covered); C15_tight_guard_subsumes shows
+           that the old guard implies the new one.
+       A guard is NEEDED: the unguarded statement
          recognizedb r = true -> nifr q fuel r = Val (Some ivs) -> matches r s -> intval s = Some n -> In_ivs n ivs
-       is FALSE of the model and of the code (C15_intervals_overapprox_refuted: a union that carries a sign and
-       evaluates to [(0,0)] is stripped as zero padding).  Missing: the inputs with an inner sign for which the
-       half still holds (e.g. Concat(Re 0, Concat(Re -, Range 1 9))) — a tighter guard would have to follow the
-       flattening of union alternatives.
-     * exactness on the concatenation-free shape under ~K_full_sign (as before); exactness for concatenations
-       is not proved (and refuted for K_full_sign / K_inner_sign). *)
+       is FALSE of the model and of the code (C15_intervals_overapprox_refuted), and the class is unsound on a whole
+       FAMILY (C15_drops_signed_family_refuted: 0* (-0|0) t for EVERY tail element t with intervals not symmetric at
+       a matched value; instances for all non-zero digits and all digit ranges).  Still missing: drops_signed is not
+       an exact characterisation of unsoundness — members whose dropped element only matches "+0"-like strings, or
+       whose tail intervals are symmetric (e.g. a <full> tail), are in the class but sound.
+     * EXACTNESS (both halves) now INCLUDING concatenations (C15_intervals_exact_concat_partial, wave 3): on the whole
+       recognised vocabulary, guards ~K_full_sign and ~K_inner_sign; the witness string (sign, zero padding per
+       stripped element, digits) is constructed (C15_intervals_witness_concat_partial).  Both guards are needed
+       (C15_intervals_exact_refuted, C15_intervals_inner_sign_refuted).
+       ~K_full_sign is replaced by the TIGHT guard  full_alone q fuel r = false  in C15_intervals_exact_full_partial:
+       only a <full> element evaluated ON ITS OWN (alone, in a union, behind a sign, behind stripped zeroes) is
+       excluded; the three [1-9][0-9]* cases (1,inf), (10,inf), (0,inf) are proved exact (witness: decimal digits),
+       so the flagship shape -?0*[1-9][0-9]* is covered; C15_full_guard_subsumes: the old guard implies the new one.
+       Still missing: exactness for inputs WITH an inner sign where it holds (K_inner_sign is syntactic, not tight;
+       Concat(Re -, Concat(Re -, Re 5)) |-> [(5,5)] is flagged and indeed inexact: "--5" is no integer), and a
+       converse family for full_alone. *)
 From ISLA Require Import Str Outcome IvRe Intervals IvShape IntervalsFacts IvCompressFacts.
 From ISLA Require Import IvReFacts IvCompressLang IvConcatFacts IvConcatSound.
+From ISLA Require Import IvConcatExact IvTightShape IvTightSound IvTightFamily IvFullShape IvFullExact.
 From Coq Require Import List ZArith.
 Import ListNotations.
 
@@ -142,3 +161,112 @@ Theorem C15_intervals_overapprox_refuted :
                     matches r s /\ intval s = Some n /\ ~ In_ivs n ivs.
 Proof. exact inner_sign_overapprox_refuted. Qed.
 Print Assumptions C15_intervals_overapprox_refuted.
+
+(* ==================================================================================================== *)
+(* Proof extension, wave 3                                                                                *)
+(* ==================================================================================================== *)
+
+Local Open Scope Z_scope.
+
+(* ---- (1) over-approximation half under the TIGHT guard: drops_signed q fuel r (Smt/IvTightShape.v) follows the
+        recursion of nifr q fuel r and is true iff the zero-stripping loop drops an element that carries a sign
+        literal while every element stripped before it is nullable (or the signed element itself does so in its own
+        evaluation).  Inner signs are allowed.  Non-vacuity: tight_examples (Smt/IvTightFamily.v): two inputs with
+        K_inner_sign = true and drops_signed = false. ---- *)
+Theorem C15_intervals_overapprox_tight_partial : forall q r fuel ivs s n,
+  recognizedb r = true -> drops_signed q fuel r = false -> nifr q fuel r = Val (Some ivs) ->
+  matches r s -> intval s = Some n -> In_ivs n ivs.
+Proof. exact recognized_overapprox_tight. Qed.
+Print Assumptions C15_intervals_overapprox_tight_partial.
+
+(* the same for the documented shape, with the fuel of nifr_top (class K_drops_signed) *)
+Theorem C15_intervals_overapprox_tight_documented_partial : forall q r ivs s n,
+  documented_shapeb r = true -> K_drops_signed q r = false -> nifr_top q r = Val (Some ivs) ->
+  matches r s -> intval s = Some n -> In_ivs n ivs.
+Proof. exact documented_overapprox_tight. Qed.
+Print Assumptions C15_intervals_overapprox_tight_documented_partial.
+
+(* the tight guard is implied by the old one: the tight theorem subsumes C15_intervals_overapprox_concat_partial *)
+Theorem C15_tight_guard_subsumes : forall q fuel r,
+  recognizedb r = true -> K_inner_sign r = false -> drops_signed q fuel r = false.
+Proof. exact inner_sign_no_drop. Qed.
+Print Assumptions C15_tight_guard_subsumes.
+
+(* converse-style refutation FAMILY: for EVERY tail element t (not a concatenation, Range(c,c)-normal, not the
+   union itself) that the model maps to intervals ivs, the regex  0* (-0 | 0) t  is in the class drops_signed, is
+   given exactly ivs, and matches "-0w" (value -v) for every digit string w (value v) matched by t: unsound
+   whenever -v is not in ivs (i.e. whenever the intervals of the tail are not symmetric at v) *)
+Theorem C15_drops_signed_family_refuted : forall q k t ivs,
+  is_concat t = false -> norm_range t = t -> re_eqb sz_union (key t) = false ->
+  nifr q (6 + k)%nat t = Val (Some ivs) ->
+  forall w, matches t w -> forallb isdig w = true -> ~ In_ivs (- digits_val w 0) ivs ->
+    nifr q (7 + k)%nat (sz_family t) = Val (Some ivs) /\ drops_signed q (7 + k)%nat (sz_family t) = true /\
+    matches (sz_family t) (45%N :: 48%N :: w) /\ intval (45%N :: 48%N :: w) = Some (- digits_val w 0) /\
+    ~ In_ivs (- digits_val w 0) ivs.
+Proof. exact family_unsound. Qed.
+Print Assumptions C15_drops_signed_family_refuted.
+
+(* instances (all hypotheses discharged): every non-zero digit literal d:  0* (-0|0) d  |-> [(d,d)], matches "-0d" *)
+Theorem C15_drops_signed_digit_refuted : forall q k d, isdig d = true -> d <> 48%N ->
+  let r := sz_family (RStr [d]) in let n := (Z.of_N d - 48)%Z in
+  recognizedb r = true /\ drops_signed q (7 + k)%nat r = true /\ nifr q (7 + k)%nat r = Val (Some [(n, n)]) /\
+  matches r [45%N; 48%N; d] /\ intval [45%N; 48%N; d] = Some (- n)%Z /\ ~ In_ivs (- n)%Z [(n, n)].
+Proof. exact family_digit. Qed.
+Print Assumptions C15_drops_signed_digit_refuted.
+
+(* every digit range [a-b], 1 <= a < b, inside the documented shape: all of -a .. -b are matched and missing *)
+Theorem C15_drops_signed_range_refuted : forall q k a b,
+  isdig a = true -> isdig b = true -> (48 < a)%N -> (a < b)%N ->
+  let r := sz_family (RRange [a] [b]) in let lo := (Z.of_N a - 48)%Z in let hi := (Z.of_N b - 48)%Z in
+  documented_shapeb r = true /\ drops_signed q (7 + k)%nat r = true /\ nifr q (7 + k)%nat r = Val (Some [(lo, hi)]) /\
+  forall x, (a <= x <= b)%N ->
+    matches r [45%N; 48%N; x] /\ intval [45%N; 48%N; x] = Some (- (Z.of_N x - 48))%Z /\
+    ~ In_ivs (- (Z.of_N x - 48))%Z [(lo, hi)].
+Proof. exact family_range. Qed.
+Print Assumptions C15_drops_signed_range_refuted.
+
+(* ---- (2) EXACT half INCLUDING concatenations (sign prefix -/+/Option(sign), union distribution, zero stripping,
+        digit classes): every integer in the inferred intervals is the value of a matched string — the witness
+        (sign, one zero string per stripped element, digits) is constructed.  Whole recognised vocabulary, both q,
+        any fuel; guards ~K_full_sign, ~K_inner_sign.  Non-vacuity: exact_example (Smt/IvConcatExact.v). ---- *)
+Theorem C15_intervals_witness_concat_partial : forall q fuel r ivs,
+  recognizedb r = true -> K_inner_sign r = false -> K_full_sign r = false -> nifr q fuel r = Val (Some ivs) ->
+  forall n, In_ivs n ivs -> exists s, matches r s /\ intval s = Some n.
+Proof. exact nifr_exact. Qed.
+Print Assumptions C15_intervals_witness_concat_partial.
+
+(* both halves together: the intervals are EXACTLY the matched integers *)
+Theorem C15_intervals_exact_concat_partial : forall q r fuel ivs n,
+  recognizedb r = true -> K_full_sign r = false -> K_inner_sign r = false -> nifr q fuel r = Val (Some ivs) ->
+  (In_ivs n ivs <-> exists s, matches r s /\ intval s = Some n).
+Proof. exact recognized_exact. Qed.
+Print Assumptions C15_intervals_exact_concat_partial.
+
+Theorem C15_intervals_exact_documented_partial : forall q r fuel ivs n,
+  documented_shapeb r = true -> K_full_sign r = false -> K_inner_sign r = false -> nifr q fuel r = Val (Some ivs) ->
+  (In_ivs n ivs <-> exists s, matches r s /\ intval s = Some n).
+Proof. exact documented_exact. Qed.
+Print Assumptions C15_intervals_exact_documented_partial.
+
+(* ---- (2b) EXACTNESS under the TIGHT guard for <full>: full_alone q fuel r (Smt/IvFullShape.v) follows the recursion
+        of nifr and is true iff a <full> element Star/Plus(Range 0 9) is evaluated ON ITS OWN (alone, as a union
+        alternative, behind a sign, or as the rest behind stripped zeroes), or the first element of one of the three
+        [1-9][0-9]* cases is answered Nothing (value_or(lambda) quirk).  The three cases themselves are exact:
+        witness = decimal digits of n.  Covers the flagship shape -?0*[1-9][0-9]* (exact_full_example). ---- *)
+Theorem C15_intervals_exact_full_partial : forall q r fuel ivs n,
+  recognizedb r = true -> K_inner_sign r = false -> full_alone q fuel r = false -> nifr q fuel r = Val (Some ivs) ->
+  (In_ivs n ivs <-> exists s, matches r s /\ intval s = Some n).
+Proof. exact recognized_exact_full. Qed.
+Print Assumptions C15_intervals_exact_full_partial.
+
+Theorem C15_intervals_exact_full_documented_partial : forall q r ivs n,
+  documented_shapeb r = true -> K_inner_sign r = false -> K_full_alone q r = false -> nifr_top q r = Val (Some ivs) ->
+  (In_ivs n ivs <-> exists s, matches r s /\ intval s = Some n).
+Proof. exact documented_exact_full. Qed.
+Print Assumptions C15_intervals_exact_full_documented_partial.
+
+(* the tight guard is implied by ~K_full_sign: this theorem subsumes C15_intervals_exact_concat_partial *)
+Theorem C15_full_guard_subsumes : forall q fuel r,
+  recognizedb r = true -> K_full_sign r = false -> full_alone q fuel r = false.
+Proof. exact no_full_not_alone. Qed.
+Print Assumptions C15_full_guard_subsumes.
